@@ -98,7 +98,8 @@ class RecipeGen:
         if t == "bool":
             return r.random() < 0.5
         if t == "path":
-            return {"$p": "/" + "/".join(r.choice(["data", "x", "model.bin", "a b", "é"]) for _ in range(r.randint(1, 3)))}
+            # absolute or relative (a relative path must stay what the user wrote, wherever it is serialised)
+            return {"$p": r.choice(["/", "/", ""]) + "/".join(r.choice(["data", "x", "model.bin", "a b", "é"]) for _ in range(r.randint(1, 3)))}
         raise ValueError(t)
 
     def gen_cfg(self, base, depth):
